@@ -43,9 +43,44 @@ struct C05 : Harness {
                     if (!(first && early_counter)) p.push_back(gen_set_counter(kind, 0));
                 }
                 int nch = *irange(1, 6);
+                if (*chance(2)) {
+                    // dribble: hundreds of calls of a few bytes each on one stream (thresholds in the number of calls,
+                    // every block boundary crossed by the byte-wise path)
+                    int calls = *irange(256, 600);
+                    for (int c = 0; c < calls; ++c) {
+                        Op e = mkop(opn(kind, "encrypt"));
+                        e.set("s", 0).set("in", *gdata((size_t)*irange(0, 5)));
+                        if (*chance(30)) e.set("ip", 1).set("io", *goffset()); else e.set("io", *goffset()).set("oo", *goffset());
+                        p.push_back(e);
+                    }
+                    nch = *irange(0, 2);
+                }
                 for (int c = 0; c < nch; ++c) p.push_back(gen_ctr_chunk(kind, 0));
             }
             if (*chance(50)) p.push_back(mkop(opn(kind, "cleanup")).set("s", 0));
+            // bystanders (ops carry by=1): other CTR objects of the same kind created, used and cleaned up in any order around
+            // the stream under test; its output must not depend on them (contexts from a shared pool, registries of live objects)
+            if (*chance(15)) {
+                int nby = *irange(1, 3);
+                Program w;
+                w.push_back(p[0]);
+                for (int b = 0; b < nby; ++b) w.push_back(mkop(std::string("new.") + kname(kind)).set("by", 1));
+                std::vector<int> state(nby, 0);   // 0 not live, 1 live, 2 keyed
+                auto by_step = [&](int b) {
+                    int sl = b + 1;
+                    if (state[b] == 0) { w.push_back(mkop(opn(kind, "init")).set("s", sl).set("by", 1).set("be", *rc::gen::elementOf(bes))); state[b] = 1; }
+                    else if (state[b] == 1 || *chance(25)) { Program kq; gen_ctr_keying(kq, kind, tweaked, sl, 0, false); for (Op &o : kq) { o.set("by", 1); w.push_back(o); } state[b] = 2; }
+                    else if (*chance(35)) { w.push_back(mkop(opn(kind, "cleanup")).set("s", sl).set("by", 1)); state[b] = 0; }
+                    else if (*chance(30)) { Op c = gen_set_counter(kind, sl); c.set("by", 1); w.push_back(c); }
+                    else { Op e = gen_ctr_chunk(kind, sl); e.set("by", 1); w.push_back(e); }
+                };
+                for (size_t i = 1; i < p.size(); ++i) {
+                    int k = *irange(0, 3);
+                    for (int j = 0; j < k; ++j) by_step(*irange(0, nby - 1));
+                    w.push_back(p[i]);
+                }
+                p = w;
+            }
             return p;
         });
     }
@@ -79,9 +114,10 @@ struct C05 : Harness {
         int kind = -1, be = -1; bool tweaked = false;
         bool have_counter = false, default_ctr = false, short_ctr = false, null_ctr = false, carry2 = false, wrap = false, ragged = false, zero_call = false, inplace = false, odd_place = false;
         Bytes ctr; size_t pos = 0; int bs = 8;
-        size_t total = 0;
+        size_t total = 0; bool bystanders = false;
         for (size_t i = 0; i < p.size(); ++i) {
             const Op &op = p[i];
+            if (op.geti("by")) { bystanders = true; continue; }
             size_t dot = op.name.find('.');
             std::string fn = op.name.substr(dot + 1);
             if (op.name.rfind("new.", 0) == 0) { kind = kind_of(fn); bs = kind_bs(kind); ctr.assign(bs, 0); continue; }
@@ -134,6 +170,8 @@ struct C05 : Harness {
         if (inplace) st.count("in-place");
         if (odd_place) st.count("odd-placement");
         if (total > 256) st.count("stream>256B");
+        if (bystanders) st.count("with-bystander-objects");
+        { size_t ncalls = 0; for (auto &op : p) if (op.name.find(".encrypt") != std::string::npos) ++ncalls; if (ncalls >= 256) st.count("calls>=256-on-one-object"); }
         bool nt = ragged || carry2 || wrap || default_ctr || short_ctr || null_ctr;
         st.case_done(ser(p), nt);
     }
